@@ -375,6 +375,7 @@ where
     ));
     // every way into a component hands it the application's Api and current block: the privileged entry points, a
     // batch, and (where the chain has the default wasm keeper) every entry point of a contract
+    let mut funds_line: Option<String> = None;
     {
         use cw_multi_test::Executor;
         let _ = app.sudo(cw_multi_test::SudoMsg::Bank(BankSudo::Mint { to_address: "x".into(), amount: vec![cosmwasm_std::coin(1, "ua")] }));
@@ -384,6 +385,23 @@ where
         let _ = app.execute_multi(sender.clone(), vec![CosmosMsg::Custom(Empty {}), CosmosMsg::Bank(BankMsg::Send { to_address: "x".into(), amount: vec![cosmwasm_std::coin(1, "ua")] })]);
         let code = app.store_code(Box::new(ContractWrapper::new(rp_execute, rp_instantiate, rp_query).with_sudo(rp_sudo).with_reply(rp_reply).with_migrate(rp_migrate)));
         if let Ok(addr) = app.instantiate_contract(code, sender.clone(), &Empty {}, &[], "reporter", Some(sender.to_string())) {
+            // funds attached to a wasm message are moved by the bank the application was built with: a tagged bank is
+            // asked once (it records every call), the default bank shows the coins at the contract afterwards
+            let asked = |n: &str| HANDED.with(|h| h.borrow().iter().filter(|(w, _, _)| w == n).count());
+            // (minting validates the recipient: the payer is an address of the application's own Api)
+            let payer = app.api().addr_humanize(&CanonicalAddr::from(vec![7u8; 20])).unwrap_or_else(|_| sender.clone());
+            let _ = app.sudo(cw_multi_test::SudoMsg::Bank(BankSudo::Mint { to_address: payer.to_string(), amount: vec![cosmwasm_std::coin(5, "ufund")] }));
+            let before = asked("bank/execute");
+            let funded = app.execute_contract(payer.clone(), addr.clone(), &false, &[cosmwasm_std::coin(2, "ufund")]);
+            let tagged_bank_asked = asked("bank/execute") - before;
+            let shown = q(app, QueryRequest::Bank(BankQuery::Balance { address: addr.to_string(), denom: "ufund".into() }));
+            funds_line = Some(if funded.is_err() {
+                "funds: the funded call failed".to_string()
+            } else if tagged_bank_asked == 1 || shown.contains("\"amount\":\"2\"") {
+                "funds: moved by the application's bank".to_string()
+            } else {
+                format!("funds: NOT moved by the application's bank (a tagged bank was asked {} times, the bank shows {})", tagged_bank_asked, shown)
+            });
             let _ = app.execute_contract(sender.clone(), addr.clone(), &true, &[]);
             let _ = app.wrap().query_wasm_smart::<Empty>(addr.clone(), &Empty {});
             let _ = app.wasm_sudo(addr.clone(), &Empty {});
@@ -396,6 +414,7 @@ where
     let mut odd: Vec<String> = seen.iter().filter(|(_, a, h)| (a.clone(), *h) != want).map(|(w, a, h)| format!("{} was handed api {} and height {}", w, a, h)).collect();
     odd.sort();
     odd.dedup();
+    t.push(funds_line.unwrap_or_else(|| "funds: no contract on this chain (stub wasm keeper)".to_string()));
     t.push(if seen.is_empty() { "handed: nothing observed".to_string() } else if odd.is_empty() { "handed: the application's api and block".to_string() } else { format!("handed: the application has api {} and height {}, but {}", want.0, want.1, odd.join("; ")) });
     t
 }
@@ -409,6 +428,8 @@ fn expected_line(slot: &str, tagged: bool, rt: &Rt, storage_tagged: bool, defaul
         ("storage", true) => format!("storage: seeded-{} victim=none overwrite=new untouched=kept", rt.seed),
         ("api", true) => "api: tagapi".into(),
         ("handed", _) => "handed: the application's api and block".into(),
+        ("funds", true) => "funds: no contract on this chain (stub wasm keeper)".into(),
+        ("funds", false) => "funds: moved by the application's bank".into(),
         ("block", true) => {
             let b = rt.block();
             format!("block: {} {} {}", b.height, b.time.nanos(), b.chain_id)
@@ -617,7 +638,7 @@ fn main() {
     let mut rep = Report::new();
     // thorough: the same chains with several run-time seeds
     let seeds: Vec<u64> = if tier.is_thorough() { (0..16).map(|i| seed * 1000 + i).collect() } else { (0..4).map(|i| seed * 4 + i).collect() };
-    let slots = ["raw", "init", "storage", "api", "handed", "block", "bank", "custom", "wasm", "staking", "distribution", "ibc", "gov", "stargate"];
+    let slots = ["raw", "init", "storage", "api", "handed", "funds", "block", "bank", "custom", "wasm", "staking", "distribution", "ibc", "gov", "stargate"];
     for s in seeds {
         let rt = Rt { seed: s };
         let chains = match catch(|| builder_chains(&rt)) {
@@ -651,12 +672,13 @@ fn main() {
             }
             let storage_tagged = steps.contains(&"storage");
             for slot in slots {
-                let tagged = steps.contains(&slot);
+                // (the line about attached funds depends on whether the chain has a real wasm keeper)
+                let tagged = if slot == "funds" { steps.contains(&"wasm") } else { steps.contains(&slot) };
                 let want = expected_line(slot, tagged, &rt, storage_tagged, &defaults);
                 let got = t.iter().find(|l| l.starts_with(&format!("{}:", slot))).cloned().unwrap_or_default();
                 rep.bump("c20/slots_checked");
                 if got != want {
-                    let sig = if slot == "handed" { "component-handed-another-api-or-block-than-the-application-has".to_string() } else if slot == "raw" { "built-app-storage-is-not-the-supplied-one-plus-the-init-functions-changes".to_string() } else if tagged { format!("configured-{}-lost", slot) } else if slot == "init" { "init-function-not-run-once-against-the-supplied-storage".to_string() } else { format!("unconfigured-{}-is-not-the-default", slot) };
+                    let sig = if slot == "funds" { "attached-funds-not-moved-by-the-configured-bank".to_string() } else if slot == "handed" { "component-handed-another-api-or-block-than-the-application-has".to_string() } else if slot == "raw" { "built-app-storage-is-not-the-supplied-one-plus-the-init-functions-changes".to_string() } else if tagged { format!("configured-{}-lost", slot) } else if slot == "init" { "init-function-not-run-once-against-the-supplied-storage".to_string() } else { format!("unconfigured-{}-is-not-the-default", slot) };
                     rep.violate("C20", sig, format!("steps {:?}: probe shows [{}], expected [{}]", steps, got, want), json!({"steps": steps, "probe": t, "seed": s}));
                 }
             }
